@@ -1,5 +1,6 @@
 import CatiiProofs.FromArray
 import CatiiProofs.RoundTrip
+import CatiiProofs.ToArrayGenBridge
 /-!
 # C01 — array → inverted index → array is lossless
 
@@ -71,6 +72,27 @@ theorem roundtrip (a : Arr) (o : FromOpts) (idx : IIndex) (w : Bool) (harr : Arr
     arr.shape = a.shape ∧ ∀ r < a.nrows, ∀ col ∈ a.cols, ∀ mv,
       mapVal o.mapping (a.at r col) = .ok mv → arr.at r col = mv :=
   IIdx.roundtrip a o idx w harr h hcounts dt arr ht
+
+/-- the `not mapping` branch of `to_array` as REGENERATED from the source on every run (`Gen.toArrayPlainGen`,
+tools/translate_toarray.py: the default dtype from the values the array will hold, `numpy.full`, one fancy-index assignment
+per entry) is the modelled method - same array, same error, for EVERY index and requested dtype -/
+theorem generated_to_array_is_the_modelled (i : IIndex) (dt : Option DT) : Gen.toArrayPlainGen i dt = toArray i none dt :=
+  gen_toArray_eq i dt
+
+/-- hence the round trip holds for the CURRENT `to_array`: what it makes of `from_array(a, counts, common, mapping)` equals the
+mapped input in shape and in every cell -/
+theorem generated_roundtrip (a : Arr) (o : FromOpts) (idx : IIndex) (w : Bool) (harr : ArrOK a)
+    (h : fromArray a o = .ok (idx, w))
+    (hcounts : ∀ c, o.counts = some c → (c.map (·.1)).Nodup ∧ ∀ v ∈ a.data, v ∈ c.map (·.1))
+    (dt : Option DT) (arr : Arr) (ht : Gen.toArrayPlainGen idx dt = .ok arr) :
+    arr.shape = a.shape ∧ ∀ r < a.nrows, ∀ col ∈ a.cols, ∀ mv,
+      mapVal o.mapping (a.at r col) = .ok mv → arr.at r col = mv := by
+  rw [gen_toArray_eq] at ht
+  exact IIdx.roundtrip a o idx w harr h hcounts dt arr ht
+
+/-- non-vacuity: a two-axis index densified by the regenerated method -/
+example : Gen.toArrayPlainGen { entries := [([1, 0], [0, 2]), ([2, 1], [1])], common := 0, shape := [3, 2] } none
+    = .ok { shape := [3, 2], data := [1, 0, 0, 2, 1, 0] } := by decide
 
 /-- the same with a value mapping on the way back -/
 theorem roundtrip_mapped (a : Arr) (o : FromOpts) (idx : IIndex) (w : Bool) (harr : ArrOK a)
